@@ -1471,6 +1471,9 @@ def iadd_cases(draw):
         else:
             o = draw(structs(1, ("comb",), max_kids=2, max_ants=2))
             o["via"] = "ctor"
+            # a combination that was legal when it was built and one of whose bare antennas has been
+            # moved above the surface since (index into its bare antennas; None = left alone)
+            o["lift"] = draw(st.sampled_from([None, None, 0, 1, 2]))
         adds.append(o)
     return {"base": base, "adds": adds}
 
@@ -1498,12 +1501,25 @@ def check_iadd(case, rec):
                     built.add(s["id"])
                     _validate_leaf(s, True, HAnt)
         add_ref = _ref_flat(o, built)
+        lifted = False
+        if o.get("lift") is not None:
+            bare = []
+            for sub_ in obj.subsets:
+                if hasattr(sub_, "position"):
+                    bare.append(sub_)
+                elif isinstance(sub_, (list, tuple)):
+                    bare.extend(sub_)
+            if bare:
+                a_ = bare[o["lift"] % len(bare)]
+                a_.position = np.array([float(a_.position[0]), float(a_.position[1]), 60.0])
+                lifted = True
+                n_before_operand = len(list(obj))
         same = c
         try:
             c += obj
         except ValueError as exc:
             require("outside of ice" in str(exc), "unexpected ValueError %r", str(exc))
-            require(_has_bad(o), "step %d: += raised %r although the operand is at z <= 0",
+            require(_has_bad(o) or lifted, "step %d: += raised %r although the operand is at z <= 0",
                     step, str(exc))
             rejected += 1
             c = same
@@ -1511,7 +1527,7 @@ def check_iadd(case, rec):
             require(_same(now, ref), "step %d: rejected += changed the detector: it now visits "
                     "%r, before the refused addition %r", step, _labs(now), _labs(ref))
         else:
-            require(not _has_bad(o), "step %d: += accepted an antenna above the ice", step)
+            require(not _has_bad(o) and not lifted, "step %d: += accepted an antenna above the ice", step)
             accepted += 1
             ref = ref + add_ref
             _check_flat(c, ref, "after += #%d" % step)
@@ -1522,6 +1538,8 @@ def check_iadd(case, rec):
         classes.append("accepted")
     if rejected and accepted:
         classes.append("both")
+    if any(o.get("lift") is not None for o in adds):
+        classes.append("lifted_combination")
     rec.case(case, nontrivial=len(adds) >= 2, classes=classes)
 
 
